@@ -4,6 +4,7 @@ import Resolvo.Drv.Trace
 import Resolvo.Graph
 import Resolvo.MDet.Checked
 import Resolvo.MDet.Graph
+import Resolvo.Abs.Decide
 /-! Driver for the solver families: evaluates the oracles on the implementation's outputs. -/
 namespace Resolvo.Drv
 open Resolvo
@@ -44,7 +45,11 @@ def traceOracle (U : Universe) (P : Problem) (r : ImplSolve) : List String :=
         else if r.result == "unsat" && r.conflictClauses.any (fun c => match (st.db.getD c default).kind with | .learnt _ => true | _ => false) then
           ["oracle-fail C03 blamed-clauses: a learnt clause is reported instead of its antecedents"]
         else []
-      o ++ [s!"info trace-accepted events {events.length} clauses {st.db.length}"]
+      -- refinement obligation R4: every decision of the history is one `decide` can produce (Abs/Decide.lean)
+      let d := match Resolvo.Abs.runD U P events with
+        | .error (k, ev) => [s!"oracle-fail C05,C07,C08 mdet-decide-guard: event {k} of the solver history is a decision that the decision rule cannot produce (not the first undecided candidate, in cache order, of an unsatisfied requirement of a selected solvable): {repr ev}".replace "\n" " "]
+        | .ok _ => ["info decide-guard ok"]
+      o ++ d ++ [s!"info trace-accepted events {events.length} clauses {st.db.length}"]
 
 open Resolvo.Graph in
 def parseNode (s : String) : Node :=
